@@ -3,10 +3,10 @@ package main
 import (
 	"fmt"
 	"go/ast"
+	"go/constant"
 	"go/parser"
+	"go/token"
 	"path/filepath"
-	"regexp"
-	"strconv"
 	"strings"
 )
 
@@ -22,39 +22,16 @@ import (
 //	if n == Z { panic(…) }
 //	return n
 //
-// Local names are free (they are bound by the statements themselves and must be used consistently).  A statement that
-// does not fit is copied into `unknown`; a table with a non-empty `unknown` satisfies no obligation.  Pure go/ast + the
-// printed form of single statements; never executes pcore.
+// Local names are free (they are bound by the statements themselves and must be used consistently).  Every constant hole is
+// an integer / rune CONSTANT EXPRESSION evaluated with go/constant (0x30, 48, '0', '0'+0, byte('0'), prefixLen … are the same
+// constant: the source text of a constant never matters).  A statement that does not fit is copied into `unknown`; a table
+// with a non-empty `unknown` satisfies no obligation.  Pure go/ast matching; never executes pcore.
 
 func init() { register("gidfacts", "GidFacts", genGidFacts) }
-
-const gfNum = `(0[xX][0-9a-fA-F]+|[0-9]+)`
-const gfId = `([A-Za-z_][A-Za-z_0-9]*)`
-
-var (
-	gfConst  = regexp.MustCompile(`^const ` + gfId + ` = ` + gfNum + `$`)
-	gfBuf    = regexp.MustCompile(`^var ` + gfId + ` \[` + gfNum + `\]byte$`)
-	gfStack  = regexp.MustCompile(`^` + gfId + ` := runtime\.Stack\(` + gfId + `\[:` + gfNum + `?\], false\)$`)
-	gfAcc    = regexp.MustCompile(`^` + gfId + ` := int64\(` + gfNum + `\)$`)
-	gfFor    = regexp.MustCompile(`^for ` + gfId + ` := ([A-Za-z_0-9]+); ` + gfId + ` < ` + gfId + `; ` + gfId + `\+\+ \{ (.*) \}$`)
-	gfByte   = regexp.MustCompile(`^` + gfId + ` := ` + gfId + `\[` + gfId + `\]$`)
-	gfTest   = regexp.MustCompile(`^if ` + gfId + ` < ` + gfNum + ` \|\| ` + gfId + ` > ` + gfNum + ` \{ break \}$`)
-	gfStep   = regexp.MustCompile(`^` + gfId + ` = ` + gfId + `\*` + gfNum + ` \+ int64\(` + gfId + `-` + gfNum + `\)$`)
-	gfPanic  = regexp.MustCompile(`^if ` + gfId + ` == ` + gfNum + ` \{ panic\(.*\) \}$`)
-	gfReturn = regexp.MustCompile(`^return ` + gfId + `$`)
-)
 
 type gidFacts struct {
 	prefixLen, bufLen, stackLen, acc0, loopFrom, digitLo, digitHi, base, digitSub, panicOn uint64
 	unknown                                                                                 []string
-}
-
-func gfParse(s string) uint64 {
-	n, err := strconv.ParseUint(s, 0, 64)
-	if err != nil {
-		panic(fmt.Sprintf("number %q: %v", s, err))
-	}
-	return n
 }
 
 func gfShort(s string) string {
@@ -64,114 +41,343 @@ func gfShort(s string) string {
 	return s
 }
 
+// gfConst evaluates an integer / rune constant expression (0x30, 48, '0', '0'+0, prefixLen-0, byte('0'), (1<<6) …) with
+// go/constant; `env` holds the local constants declared before.  The SOURCE TEXT of a constant never matters, only its value.
+func gfConst(e ast.Expr, env map[string]constant.Value) (constant.Value, bool) {
+	switch x := e.(type) {
+	case *ast.BasicLit:
+		if x.Kind != token.INT && x.Kind != token.CHAR {
+			return nil, false
+		}
+		v := constant.MakeFromLiteral(x.Value, x.Kind, 0)
+		if v.Kind() == constant.Unknown {
+			return nil, false
+		}
+		return constant.ToInt(v), true
+	case *ast.Ident:
+		v, ok := env[x.Name]
+		return v, ok
+	case *ast.ParenExpr:
+		return gfConst(x.X, env)
+	case *ast.UnaryExpr:
+		v, ok := gfConst(x.X, env)
+		if !ok || (x.Op != token.ADD && x.Op != token.SUB) {
+			return nil, false
+		}
+		return constant.UnaryOp(x.Op, v, 0), true
+	case *ast.BinaryExpr:
+		l, ok1 := gfConst(x.X, env)
+		r, ok2 := gfConst(x.Y, env)
+		if !ok1 || !ok2 {
+			return nil, false
+		}
+		switch x.Op {
+		case token.ADD, token.SUB, token.MUL, token.AND, token.OR, token.XOR:
+			return constant.BinaryOp(l, x.Op, r), true
+		case token.QUO, token.REM:
+			if constant.Sign(r) == 0 {
+				return nil, false
+			}
+			op := x.Op
+			if op == token.QUO {
+				op = token.QUO_ASSIGN // integer division
+			}
+			return constant.BinaryOp(l, op, r), true
+		case token.SHL, token.SHR:
+			n, ok := constant.Uint64Val(r)
+			if !ok || n > 63 {
+				return nil, false
+			}
+			return constant.Shift(l, x.Op, uint(n)), true
+		}
+		return nil, false
+	case *ast.CallExpr:
+		// a conversion to an integer type
+		if id, ok := x.Fun.(*ast.Ident); ok && len(x.Args) == 1 && x.Ellipsis == token.NoPos {
+			switch id.Name {
+			case "byte", "uint8", "int", "int64", "uint", "uint64", "int32", "rune", "uint32":
+				return gfConst(x.Args[0], env)
+			}
+		}
+	}
+	return nil, false
+}
+
+func gfNat(e ast.Expr, env map[string]constant.Value) (uint64, bool) {
+	v, ok := gfConst(e, env)
+	if !ok || v.Kind() != constant.Int {
+		return 0, false
+	}
+	return constant.Uint64Val(v)
+}
+
+func gfName(e ast.Expr) (string, bool) {
+	id, ok := e.(*ast.Ident)
+	if !ok || id.Name == "_" {
+		return "", false
+	}
+	return id.Name, true
+}
+
+func gfIs(e ast.Expr, name string) bool {
+	id, ok := e.(*ast.Ident)
+	return ok && name != "" && id.Name == name
+}
+
+func gfDefine1(s ast.Stmt) (string, ast.Expr, bool) {
+	a, ok := s.(*ast.AssignStmt)
+	if !ok || a.Tok != token.DEFINE || len(a.Lhs) != 1 || len(a.Rhs) != 1 {
+		return "", nil, false
+	}
+	n, ok := gfName(a.Lhs[0])
+	return n, a.Rhs[0], ok
+}
+
+func gfBin(e ast.Expr, op token.Token) (ast.Expr, ast.Expr, bool) {
+	for {
+		p, ok := e.(*ast.ParenExpr)
+		if !ok {
+			break
+		}
+		e = p.X
+	}
+	b, ok := e.(*ast.BinaryExpr)
+	if !ok || b.Op != op {
+		return nil, nil, false
+	}
+	return b.X, b.Y, true
+}
+
 func gidFactsOf(f *ast.File, fd *ast.FuncDecl) (g gidFacts) {
 	unk := func(n ast.Node) { g.unknown = append(g.unknown, gfShort(src(n))) }
+	missing := func(what string) { g.unknown = append(g.unknown, "missing: "+what) }
 	if fd.Type.Params.NumFields() != 0 || fd.Type.Results.NumFields() != 1 || src(fd.Type.Results.List[0].Type) != "int64" {
 		g.unknown = append(g.unknown, "signature: "+gfShort(src(fd.Type)))
 	}
 	// read through one level of helper extraction (inline.go, inlineresults.go)
 	stmts := inlineResultHelpers(f, inlineHelpers(f, fd.Body.List))
+	env := map[string]constant.Value{}
 	i := 0
-	next := func() (ast.Stmt, string) {
+	next := func() ast.Stmt {
 		if i < len(stmts) {
 			s := stmts[i]
 			i++
-			return s, src(s)
+			return s
 		}
-		return nil, ""
+		return nil
 	}
-	pfxName, havePfx := "", false
-	s, txt := next()
-	if m := gfConst.FindStringSubmatch(txt); m != nil {
-		pfxName, havePfx = m[1], true
-		g.prefixLen = gfParse(m[2])
-		s, txt = next()
+	s := next()
+	// const prefixLen = P (optional)
+	pfxName := ""
+	if ds, ok := s.(*ast.DeclStmt); ok {
+		if gd, ok := ds.Decl.(*ast.GenDecl); ok && gd.Tok == token.CONST && len(gd.Specs) == 1 {
+			if vs, ok := gd.Specs[0].(*ast.ValueSpec); ok && len(vs.Names) == 1 && len(vs.Values) == 1 {
+				if v, ok := gfConst(vs.Values[0], env); ok {
+					if n, ok := constant.Uint64Val(v); ok {
+						pfxName = vs.Names[0].Name
+						env[pfxName] = v
+						g.prefixLen = n
+						s = next()
+					}
+				}
+			}
+		}
 	}
+	// var buf [B]byte
 	bufName := ""
-	if m := gfBuf.FindStringSubmatch(txt); m != nil {
-		bufName = m[1]
-		g.bufLen = gfParse(m[2])
-	} else if s != nil {
-		unk(s)
-	} else {
-		g.unknown = append(g.unknown, "missing: var buf [N]byte")
+	okBuf := false
+	if ds, ok := s.(*ast.DeclStmt); ok {
+		if gd, ok := ds.Decl.(*ast.GenDecl); ok && gd.Tok == token.VAR && len(gd.Specs) == 1 {
+			if vs, ok := gd.Specs[0].(*ast.ValueSpec); ok && len(vs.Names) == 1 && len(vs.Values) == 0 {
+				if at, ok := vs.Type.(*ast.ArrayType); ok && at.Len != nil && (gfIs(at.Elt, "byte") || gfIs(at.Elt, "uint8")) {
+					if n, ok := gfNat(at.Len, env); ok {
+						bufName, g.bufLen, okBuf = vs.Names[0].Name, n, true
+					}
+				}
+			}
+		}
 	}
-	lName := ""
-	s, txt = next()
-	if m := gfStack.FindStringSubmatch(txt); m != nil && m[2] == bufName {
-		lName = m[1]
-		if m[3] == "" {
-			g.stackLen = g.bufLen
+	if !okBuf {
+		if s != nil {
+			unk(s)
 		} else {
-			g.stackLen = gfParse(m[3])
+			missing("var buf [N]byte")
 		}
-	} else if s != nil {
-		unk(s)
-	} else {
-		g.unknown = append(g.unknown, "missing: l := runtime.Stack(buf[:N], false)")
 	}
+	// l := runtime.Stack(buf[:K], false)
+	s = next()
+	lName := ""
+	okStack := false
+	if name, rhs, ok := gfDefine1(s); ok {
+		if c, ok := rhs.(*ast.CallExpr); ok && src(c.Fun) == "runtime.Stack" && len(c.Args) == 2 && c.Ellipsis == token.NoPos && gfIs(c.Args[1], "false") {
+			if sl, ok := c.Args[0].(*ast.SliceExpr); ok && gfIs(sl.X, bufName) && !sl.Slice3 {
+				lowOK := sl.Low == nil
+				if !lowOK {
+					if n, ok := gfNat(sl.Low, env); ok && n == 0 {
+						lowOK = true
+					}
+				}
+				if lowOK {
+					if sl.High == nil {
+						lName, g.stackLen, okStack = name, g.bufLen, true
+					} else if n, ok := gfNat(sl.High, env); ok {
+						lName, g.stackLen, okStack = name, n, true
+					} else if c2, ok := sl.High.(*ast.CallExpr); ok && gfIs(c2.Fun, "len") && len(c2.Args) == 1 && gfIs(c2.Args[0], bufName) {
+						lName, g.stackLen, okStack = name, g.bufLen, true
+					}
+				}
+			}
+		}
+	}
+	if !okStack {
+		if s != nil {
+			unk(s)
+		} else {
+			missing("l := runtime.Stack(buf[:N], false)")
+		}
+	}
+	// n := int64(A)
+	s = next()
 	nName := ""
-	s, txt = next()
-	if m := gfAcc.FindStringSubmatch(txt); m != nil {
-		nName = m[1]
-		g.acc0 = gfParse(m[2])
-	} else if s != nil {
-		unk(s)
-	} else {
-		g.unknown = append(g.unknown, "missing: n := int64(0)")
-	}
-	s, txt = next()
-	okFor := false
-	if fs, isFor := s.(*ast.ForStmt); isFor {
-		if m := gfFor.FindStringSubmatch(txt); m != nil && m[1] == m[3] && m[1] == m[5] && m[4] == lName && lName != "" && len(fs.Body.List) == 3 {
-			iName := m[1]
-			fromOK := true
-			switch {
-			case havePfx && m[2] == pfxName:
-				g.loopFrom = g.prefixLen
-			case regexp.MustCompile(`^` + gfNum + `$`).MatchString(m[2]):
-				g.loopFrom = gfParse(m[2])
-				if !havePfx {
-					g.prefixLen = g.loopFrom
-				}
-			default:
-				fromOK = false
-			}
-			b0, b1, b2 := src(fs.Body.List[0]), src(fs.Body.List[1]), src(fs.Body.List[2])
-			m0, m1, m2 := gfByte.FindStringSubmatch(b0), gfTest.FindStringSubmatch(b1), gfStep.FindStringSubmatch(b2)
-			if fromOK && m0 != nil && m1 != nil && m2 != nil {
-				dName := m0[1]
-				if m0[2] == bufName && m0[3] == iName && m1[1] == dName && m1[3] == dName &&
-					m2[1] == nName && m2[2] == nName && m2[4] == dName && nName != "" &&
-					dName != iName && dName != nName && iName != nName {
-					g.digitLo, g.digitHi = gfParse(m1[2]), gfParse(m1[4])
-					g.base, g.digitSub = gfParse(m2[3]), gfParse(m2[5])
-					okFor = true
-				}
+	okAcc := false
+	if name, rhs, ok := gfDefine1(s); ok {
+		if c, ok := rhs.(*ast.CallExpr); ok && gfIs(c.Fun, "int64") && len(c.Args) == 1 {
+			if n, ok := gfNat(c.Args[0], env); ok {
+				nName, g.acc0, okAcc = name, n, true
 			}
 		}
+	}
+	if !okAcc {
+		if s != nil {
+			unk(s)
+		} else {
+			missing("n := int64(0)")
+		}
+	}
+	// for i := P; i < l; i++ { d := buf[i]; if d < LO || d > HI { break }; n = n*R + int64(d-S) }
+	s = next()
+	okFor := false
+	if fs, ok := s.(*ast.ForStmt); ok && fs.Init != nil && fs.Cond != nil && fs.Post != nil && len(fs.Body.List) == 3 {
+		func() {
+			iName, from, ok := gfDefine1(fs.Init)
+			if !ok {
+				return
+			}
+			fromV, ok := gfNat(from, env)
+			if !ok {
+				return
+			}
+			cx, cy, ok := gfBin(fs.Cond, token.LSS)
+			if !ok || !gfIs(cx, iName) || !gfIs(cy, lName) {
+				return
+			}
+			inc, ok := fs.Post.(*ast.IncDecStmt)
+			if !ok || inc.Tok != token.INC || !gfIs(inc.X, iName) {
+				return
+			}
+			dName, rhs, ok := gfDefine1(fs.Body.List[0])
+			if !ok {
+				return
+			}
+			ix, ok := rhs.(*ast.IndexExpr)
+			if !ok || !gfIs(ix.X, bufName) || !gfIs(ix.Index, iName) {
+				return
+			}
+			is, ok := fs.Body.List[1].(*ast.IfStmt)
+			if !ok || is.Init != nil || is.Else != nil || len(is.Body.List) != 1 {
+				return
+			}
+			br, ok := is.Body.List[0].(*ast.BranchStmt)
+			if !ok || br.Tok != token.BREAK || br.Label != nil {
+				return
+			}
+			lo, hi, ok := gfBin(is.Cond, token.LOR)
+			if !ok {
+				return
+			}
+			lx, ly, ok1 := gfBin(lo, token.LSS)
+			hx, hy, ok2 := gfBin(hi, token.GTR)
+			if !ok1 || !ok2 || !gfIs(lx, dName) || !gfIs(hx, dName) {
+				return
+			}
+			loV, ok1 := gfNat(ly, env)
+			hiV, ok2 := gfNat(hy, env)
+			if !ok1 || !ok2 {
+				return
+			}
+			st, ok := fs.Body.List[2].(*ast.AssignStmt)
+			if !ok || st.Tok != token.ASSIGN || len(st.Lhs) != 1 || len(st.Rhs) != 1 || !gfIs(st.Lhs[0], nName) {
+				return
+			}
+			mul, add, ok := gfBin(st.Rhs[0], token.ADD)
+			if !ok {
+				return
+			}
+			mx, my, ok := gfBin(mul, token.MUL)
+			if !ok || !gfIs(mx, nName) {
+				return
+			}
+			baseV, ok := gfNat(my, env)
+			if !ok {
+				return
+			}
+			conv, ok := add.(*ast.CallExpr)
+			if !ok || !gfIs(conv.Fun, "int64") || len(conv.Args) != 1 {
+				return
+			}
+			sx, sy, ok := gfBin(conv.Args[0], token.SUB)
+			if !ok || !gfIs(sx, dName) {
+				return
+			}
+			subV, ok := gfNat(sy, env)
+			if !ok {
+				return
+			}
+			if nName == "" || lName == "" || bufName == "" || dName == iName || dName == nName || iName == nName || dName == lName || iName == lName {
+				return
+			}
+			g.loopFrom, g.digitLo, g.digitHi, g.base, g.digitSub = fromV, loV, hiV, baseV, subV
+			if pfxName == "" {
+				g.prefixLen = fromV
+			}
+			okFor = true
+		}()
 	}
 	if !okFor {
 		if s != nil {
 			unk(s)
 		} else {
-			g.unknown = append(g.unknown, "missing: the digit loop")
+			missing("the digit loop")
 		}
 	}
-	s, txt = next()
-	if m := gfPanic.FindStringSubmatch(txt); m != nil && m[1] == nName {
-		g.panicOn = gfParse(m[2])
-	} else if s != nil {
-		unk(s)
-	} else {
-		g.unknown = append(g.unknown, "missing: if n == 0 { panic(…) }")
+	// if n == Z { panic(…) }
+	s = next()
+	okPanic := false
+	if is, ok := s.(*ast.IfStmt); ok && is.Init == nil && is.Else == nil && len(is.Body.List) == 1 {
+		if x, y, ok := gfBin(is.Cond, token.EQL); ok && gfIs(x, nName) {
+			if z, ok := gfNat(y, env); ok {
+				if es, ok := is.Body.List[0].(*ast.ExprStmt); ok {
+					if c, ok := es.X.(*ast.CallExpr); ok && gfIs(c.Fun, "panic") && len(c.Args) == 1 {
+						g.panicOn, okPanic = z, true
+					}
+				}
+			}
+		}
 	}
-	s, txt = next()
-	if m := gfReturn.FindStringSubmatch(txt); m == nil || m[1] != nName {
+	if !okPanic {
 		if s != nil {
 			unk(s)
 		} else {
-			g.unknown = append(g.unknown, "missing: return n")
+			missing("if n == 0 { panic(…) }")
+		}
+	}
+	// return n
+	s = next()
+	if rs, ok := s.(*ast.ReturnStmt); !ok || len(rs.Results) != 1 || !gfIs(rs.Results[0], nName) {
+		if s != nil {
+			unk(s)
+		} else {
+			missing("return n")
 		}
 	}
 	for i < len(stmts) {
